@@ -72,7 +72,7 @@ out.append("* Seeds: `lib/seed_sweep.sh` runs every quick check under several `V
 if os.path.exists(hp):
     lines = [l for l in open(hp).read().strip().split("\n") if l]
     ok = sum(1 for l in lines if " exit 0 0v" in l)
-    out.append("* Harmless changes: a sub-agent that saw nothing of /verif wrote eight behaviour-preserving refactors (helper extraction, if-chain to switch, early returns, renamed locals, split functions) in `x/evm/vm/state_db.go`, `x/evm/keeper/state_transition.go`, `x/cpc/keeper/precompiles_erc20.go`, `precompiles_staking.go`, `app/antedl`, `x/feemarket/keeper`, `rpc/backend/utils.go`, `x/vauth/keeper` (`seeded/_harmless/h*.diff`); the relevant checks were run against each in a scratch worktree: %d of %d runs exit 0 with no VIOLATION line (`seeded/_harmless/RESULT.txt`)." % (ok, len(lines)))
+    out.append("* Harmless changes: a sub-agent that saw nothing of /verif wrote sixteen behaviour-preserving refactors in two batches (helper extraction, if-chain to switch, early returns, renamed locals, split functions) in `x/evm/vm/state_db.go`, `x/evm/keeper/state_transition.go`, `x/cpc/keeper/precompiles_erc20.go`, `precompiles_staking.go`, `app/antedl`, `x/feemarket/keeper`, `rpc/backend/utils.go`, `x/vauth/keeper`, then `x/evm/keeper/msg_server.go`, `statedb.go`, `x/cpc/keeper/msg_server.go`, `x/evm/genesis.go`, `indexer/kv_indexer.go`, `filters/api.go`, `ethereum/eip712/message.go`, `x/evm/vm/state_db_access_list.go` (`seeded/_harmless/*.diff`); the relevant checks were run against each in a scratch worktree: %d of %d runs exit 0 with no VIOLATION line (`seeded/_harmless/RESULT.txt`)." % (ok, len(lines)))
 out.append("* A change that renames or re-types an exported function the harness links against makes the harness build fail; that is reported as a broken correspondence (`VIOLATION … no-failing-input-found`, replay names `corr:build/harness`), as the brief prescribes. Drivers call constructors whose parameter lists are likely to grow through reflection where that was cheap (C12).")
 gen = "\n".join(out)
 dp = os.path.join(ROOT, "DESIGN.md")
